@@ -306,6 +306,59 @@ class QQ(object):
         return pop
 
 
+@diagram("qq-q", flavor="prob")
+class QQQ(object):
+    """qq with quantile lines, pooled or aggregated per slice of -x: one dashed line per input and quantile, labelled
+    '<input> (<level>%)', the deterministic line '<input> (deterministic)'."""
+
+    def args(self, case, spec):
+        qs = None
+        for d in spec["inputs"]:
+            s_ = set(d.get("quantiles") or [])
+            qs = s_ if qs is None else qs & s_
+        qs = sorted(qs or [])
+        if len(qs) < 2:
+            return None
+        case["opt"]["q"] = qs if not case["opt"].get("rev") else qs[::-1]
+        a = ["-m", "qq", "-q", edges_arg(case["opt"]["q"])]
+        if case["opt"]["axis"] != "no":
+            a += ["-x", case["opt"]["axis"]]
+        return a
+
+    def options(self, draw, spec):
+        return {"axis": draw(st.sampled_from(["no", "leadtime", "location", "time", "leadtime"])), "rev": draw(st.booleans())}
+
+    def verify(self, J, dump, ds, spec, case, names):
+        ax = data_axes(dump)[0]
+        axis = case["opt"]["axis"]
+        qs = case["opt"]["q"]
+        F = [("obs",), ("fcst",)] + [("q", q) for q in qs]
+        nan = float("nan")
+
+        def srt(vals):
+            good = sorted(v for v in vals if v == v)
+            return good + [nan] * (len(vals) - len(good))
+        pop = 0
+        for i, nm in enumerate(names):
+            if axis == "no":
+                cs = ds.cases(F, i)
+                if not cs:
+                    continue
+                cols = [[c[j] for c in cs] for j in range(len(F))]
+            else:
+                cols = [[] for _ in F]
+                for k in range(ds.n_slices(axis)):
+                    cs = ds.cases(F, i, axis, k)
+                    for j in range(len(F)):
+                        cols[j].append(mean(c[j] for c in cs) if cs else nan)
+            xs = srt(cols[0])
+            J.series(ax, nm + " (deterministic)", xs, srt(cols[1]), "deterministic")
+            for j, q in enumerate(qs):
+                J.series(ax, "%s (%g%%)" % (nm, q * 100), xs, srt(cols[2 + j]), "quantile")
+            pop = max(pop, sum(1 for v in cols[0] if v == v))
+        return pop
+
+
 @diagram("sort")
 class Sort(object):
     def args(self, case, spec):
